@@ -13,7 +13,7 @@ RULE = ('one case = one real audit of a generated peer (random and boundary name
         'Oracle, relational inside the same report plus first-appeared facts read from the live table: removals/changes subset of advertised-and-rated, rated names known in the identified version are recommended unless the report '
         'says they are outside the operator\'s control, critical <=> has a failure note, additions are unadvertised / clean / not certificate, security-key or pseudo algorithms / available in the identified version, nothing both ways, '
         'unrecognised software gets no additions.  Non-trivial: the report carried >= 1 recommendation or >= 1 rated algorithm; distinct = distinct (peer, banner, rendering)')
-REQUIRED = {'categories_with_only_changes': 3, 'multi_target_entries': 8, 'audits_completed': 100, 'recs_checked': 500, 'rated_names_checked': 300, 'additions_checked': 100, 'unrecognised_software': 10, 'json_runs': 30}
+REQUIRED = {'multi_target_version_mix_entries': 6, 'categories_with_only_changes': 3, 'multi_target_entries': 8, 'audits_completed': 100, 'recs_checked': 500, 'rated_names_checked': 300, 'additions_checked': 100, 'unrecognised_software': 10, 'json_runs': 30}
 ASSUMPTIONS = ['"known in the identified version" = the database does not say the algorithm appeared later or only in another product (entries without version information count as known)',
                'version order is numeric (C14 model); when one version is a strict prefix of the other the comparison is don\'t-care',
                'client audits are not part of this property (recommendations are addressed to server operators)']
@@ -99,6 +99,9 @@ def cases(tier, seed):
     profiles = ['db', 'asym', 'sizes', 'terrapin', 'gss', 'unknown', 'big', 'weak', 'db', 'asym-weak', 'lone-change', 'empty-category', 'none-both']
     for i in range(4 if tier == 'quick' else 40):
         cs.append({'kind': 'multi', 'seed': rng.randrange(1 << 30), 'threads': [1, 2][i % 2], 'render': 'json'})
+    # the same product in different versions in one run, in both orders of completion: what is available to one target is decided by that target's version
+    for order in (['openssh-new', 'openssh-old', 'dropbear-old', 'clean'], ['openssh-old', 'dropbear-old', 'openssh-new', 'rsa2048']) + (() if tier == 'quick' else (['dropbear-old', 'openssh-old', 'openssh-new'], ['openssh-new', 'clean', 'openssh-old'])):
+        cs.append({'kind': 'multi', 'seed': rng.randrange(1 << 30), 'threads': 1, 'render': 'json', 'order': order})
     # OpenSSH servers whose group exchanges are all measured at exactly 2048 bits (the case in which one of them is excused as outside the operator's control)
     for i, w in enumerate(['6.6', '7.4', '8.9', '9.9'] if tier == 'quick' else ['5.3', '6.6', '7.0', '7.4', '8.0', '8.9', '9.3', '9.9', '10.0']):
         for both in (True, False):
@@ -179,7 +182,7 @@ def run_multi(c):
     from harness import multi
     names = ['clean', 'terrapin', 'rsa2048', 'rsa1024', 'gex2048', 'gex1024', 'cert-small-ca']
     rng = random.Random(c['seed'])
-    order = rng.sample(names, 4)
+    order = c.get('order') or rng.sample(names, 4)
     targets = [multi.Target(n, multi.healthy(n)) for n in order]
     try:
         res = multi.run_multi(targets, c['threads'], 'json', timeout=240)
@@ -193,6 +196,8 @@ def run_multi(c):
             viol.append(_v('C13/multi-target-entry-missing', 'no JSON entry for a target', target=t.name, err=res.get('json_error')))
             continue
         counters['multi_target_entries'] += 1
+        if c.get('order'):
+            counters['multi_target_version_mix_entries'] = counters.get('multi_target_version_mix_entries', 0) + 1
         sw = t.script['banner'].split('-', 2)[2]
         prod = 'Dropbear SSH' if sw.startswith('dropbear') else 'OpenSSH'
         cc = {'product': prod, 'version': sw.split('_')[1].replace('p1', ''), 'software': sw, 'render': 'json', 'seed': c['seed'], 'profile': 'multi:' + t.name}
